@@ -230,6 +230,18 @@ func runScenario(sc Scenario) Result {
 			continue
 		}
 		switch op.K {
+		case "away":
+			// the next phase-two request for op Target lands on a process that does not hold the
+			// connection (RM cluster) while the holder stays connected: nothing is in the keeper there
+			id, ok := opID[op.Target]
+			if ok && w.prepared(id) && !finished[op.Target] {
+				if v, ok2 := rm.GetRmCacheInstance().GetResourceManager(branch.BranchTypeXA).GetCachedResources().Load(resID); ok2 {
+					if dr, ok3 := v.(*seatasql.DBResource); ok3 {
+						dr.Release(id)
+					}
+				}
+			}
+			r = OpResult{Class: "skipped"}
 		case "check":
 			open0 := w.openSet()
 			hold := time.Hour
@@ -573,11 +585,25 @@ func oracle(sc *Scenario, r *Result) (fails []string, legal bool) {
 	}
 	nfaultAll := map[string]int{}
 	for _, ev := range r.Events {
-		if ev.K == "sql" && ev.Res == "fault" {
+		if ev.K == "sql" && (ev.Res == "fault" || ev.Res == "rbidle") {
 			nfaultAll[ev.ID]++
 		}
 	}
+	// events of phase-two calls that were routed to a process that does not hold the connection
+	awayWin := map[int]bool{}
+	awayT := map[int]bool{}
+	for j, op := range sc.Ops {
+		if op.K == "away" {
+			awayT[op.Target] = true
+		}
+		if op.K == "p2" && awayT[op.Target] && j < len(r.Ops) {
+			for k := r.Ops[j].EvFrom; k < r.Ops[j].EvTo; k++ {
+				awayWin[k] = true
+			}
+		}
+	}
 	onConn := map[int]string{} // session -> identifier of the branch bound to it
+	boundTo := map[string]int{} // identifier -> session it is bound to (0: detached / none)
 	state := map[string]int{} // 0 none, 1 active, 2 idle, 3 prepared, 4 committed, 5 rolled back
 	failed := map[string]bool{}
 	order := []string{}
@@ -589,6 +615,12 @@ func oracle(sc *Scenario, r *Result) (fails []string, legal bool) {
 		case "reg":
 			e := ev
 			lastReg = &e
+		case "kill":
+			for x, c := range boundTo {
+				if c == ev.Conn {
+					boundTo[x] = 0
+				}
+			}
 		case "sql":
 			if ev.Cmd == "STMT" && ev.ID == "" {
 				if ev.Res != "ok" && ev.Res != "fault" {
@@ -602,11 +634,29 @@ func oracle(sc *Scenario, r *Result) (fails []string, legal bool) {
 				state[id] = 0
 				order = append(order, id)
 			}
+			if ev.Res == "rbidle" {
+				// rollback-only branch: XA END is answered with an XA_RB* error and the branch is IDLE afterwards
+				if ev.Cmd == "END" && state[id] == 1 {
+					state[id] = 2
+					failed[id] = true
+				} else {
+					bad("XA %s '%s' answered rollback-only in state %d", ev.Cmd, id, state[id])
+				}
+				continue
+			}
 			if ev.Res != "ok" && ev.Res != "fault" {
 				// the one tolerated rejection: XA END(success) AND the XA END(fail) after it were both
 				// made to fail, the closing XA ROLLBACK then meets a still active branch (docs/C17.md)
 				if ev.Cmd == "ROLLBACK" && ev.Res == "nota" && (state[id] == 0 || state[id] == 5) {
 					continue // nothing to roll back: never started / already rolled back (reading in docs/C17.md)
+				}
+				if (ev.Cmd == "COMMIT" || ev.Cmd == "ROLLBACK") && ev.Res == "nota" && state[id] == 3 && boundTo[id] != ev.Conn && boundTo[id] != 0 && awayWin[i] {
+					// a process that does not hold the session: on this server family the branch is only
+					// visible to the session that prepared it; nothing changed, the answer must say so (checked per op)
+					continue
+				}
+				if ev.Cmd == "END" && ev.Res == "rmfail" && state[id] == 2 {
+					continue // XA END repeated on an already IDLE branch: refused, no effect
 				}
 				if ev.Cmd == "START" && ev.Res == "rmfail" && state[id] == 0 && nfaultAll[onConn[ev.Conn]] >= 2 {
 					// the session is still bound to an earlier branch whose compensating XA ROLLBACK was
@@ -620,6 +670,9 @@ func oracle(sc *Scenario, r *Result) (fails []string, legal bool) {
 				continue
 			}
 			s := state[id]
+			if ev.Cmd == "END" && ev.Res == "fault" && s == 2 {
+				continue // XA END repeated on an already IDLE branch, made to fail: no effect either way
+			}
 			if ev.Cmd == "ROLLBACK" && ev.Res == "fault" && (s == 0 || s == 5) {
 				continue // as above: a rollback with nothing to roll back, made to fail
 			}
@@ -627,6 +680,7 @@ func oracle(sc *Scenario, r *Result) (fails []string, legal bool) {
 				switch ev.Cmd {
 				case "START":
 					onConn[ev.Conn] = id
+					boundTo[id] = ev.Conn
 				case "COMMIT", "ROLLBACK":
 					for c, x := range onConn {
 						if x == id {
@@ -636,6 +690,7 @@ func oracle(sc *Scenario, r *Result) (fails []string, legal bool) {
 				case "PREPARE":
 					if versionGE(sc.Version, 8, 0, 29) {
 						delete(onConn, ev.Conn)
+						boundTo[id] = 0
 					}
 				}
 			}
@@ -698,7 +753,7 @@ func oracle(sc *Scenario, r *Result) (fails []string, legal bool) {
 	// only legality and never-committed are required)
 	nfault := map[string]int{}
 	for _, ev := range r.Events {
-		if ev.K == "sql" && ev.Res == "fault" {
+		if ev.K == "sql" && (ev.Res == "fault" || ev.Res == "rbidle") {
 			nfault[ev.ID]++
 		}
 	}
